@@ -23,7 +23,8 @@ in the generated-facts block; the translator never guesses):
               `T *` parameters for a scalar T (ONE object of type T)
   expressions integer/char literals, enum constants, parentheses, implicit and
               explicit integral casts, + - * / % << >> & | ^ ~ unary -,
-              < <= > >= == != ! && || ?:, sizeof of a scalar type/expression,
+              < <= > >= == != ! && || ?:, sizeof of a scalar type/expression
+              (the source is read as the pinned build compiles it: -DNDEBUG),
               reads of locals/parameters, p[i] and *p on byte pointers, *p on
               scalar pointers, p + i / p - i / &p[i] on byte pointers, &local
   statements  blocks, declarations of scalar locals with or without
@@ -37,6 +38,7 @@ in the generated-facts block; the translator never guesses):
               * a non-static function of the same file is called through its own
                 translation `src_<g>` (byte pointers must be passed unoffset,
                 no two pointer arguments may alias),
+              * cond ? a : b whose arms contain such calls (condition call-free),
               * memcpy(p, &x, sizeof x) between two scalar objects of the same
                 type is the assignment *p = x,
               * __builtin_{s,u}{add,sub,mul}{,l,ll}_overflow as gcc documents them
@@ -134,7 +136,7 @@ class Ctx:
 class Translator:
     def __init__(self, repo, cfile):
         self.src = os.path.join(repo, "src")
-        self.cfile = os.path.join(self.src, cfile)
+        self.cfile = cfile if os.path.isabs(cfile) else os.path.join(self.src, cfile)
         self.asts = {}
         self.done = {}        # fn -> dict(text, sig) | dict(error)
         self.order = []
@@ -146,7 +148,7 @@ class Translator:
 
     # ------------------------------------------------------------ clang
     def clang(self, args, text=None):
-        cmd = ["clang", "-std=c11", "-I", self.src, "-fsyntax-only", "-w"] + args
+        cmd = ["clang", "-std=c11", "-DNDEBUG", "-I", self.src, "-fsyntax-only", "-w"] + args
         p = subprocess.run(cmd, input=text, stdout=subprocess.PIPE, stderr=subprocess.PIPE, text=True)
         return p.returncode, p.stdout, p.stderr
 
@@ -191,7 +193,7 @@ class Translator:
                     'int main(void) { printf("%%lld\\n", (long long)(%s)); return 0; }\n' % name)
             with tempfile.TemporaryDirectory(prefix="c2coq-") as d:
                 exe = os.path.join(d, "e")
-                p = subprocess.run(["clang", "-std=c11", "-w", "-I", self.src, "-x", "c", "-", "-o", exe], input=prog,
+                p = subprocess.run(["clang", "-std=c11", "-DNDEBUG", "-w", "-I", self.src, "-x", "c", "-", "-o", exe], input=prog,
                                    stdout=subprocess.PIPE, stderr=subprocess.PIPE, text=True)
                 if p.returncode != 0:
                     raise Untranslatable("enumeration constant %s cannot be evaluated" % name)
@@ -378,6 +380,8 @@ class Translator:
             return self.ptr(n["inner"][0], env)
         if k in ("ImplicitCastExpr", "CStyleCastExpr"):
             sub, ck = n["inner"][0], n["castKind"]
+            while ck == "LValueToRValue" and sub["kind"] == "ParenExpr":
+                sub = sub["inner"][0]
             if ck == "LValueToRValue" and sub["kind"] == "DeclRefExpr":
                 v = self.var(sub, env)
                 if v[0] == "cell":
@@ -433,6 +437,21 @@ class Translator:
                 v = self.fresh("v_", hint)
                 return self.bind(v, t, k(e2, v))
             return self.rhs(a, env, after, ctx)
+        if core["kind"] == "ConditionalOperator" and self.has_call(core):
+            c, a, b = core["inner"]
+            if self.has_call(c) or self.ity(a) != self.ity(core) or self.ity(b) != self.ity(core):
+                raise Untranslatable("?: with a call in its condition / unconverted arms")
+
+            def arm(e2, r):
+                if not wraps:
+                    return k(e2, r)
+                t = "(COk %s)" % r
+                for (f, to) in reversed(wraps):
+                    t = "(c_cast %s %s %s)" % (f, to, t)
+                v = self.fresh("v_", hint)
+                return self.bind(v, t, k(e2, v))
+            return "c_cond %s\n%s\n%s" % (self.expr(c, env), indent(blk(self.rhs(a, env, arm, ctx, hint))),
+                                          indent(blk(self.rhs(b, env, arm, ctx, hint))))
         if core["kind"] == "CallExpr":
             def after(e2, r):
                 if r is None:
@@ -878,11 +897,24 @@ class Translator:
         return txt
 
 
-def translate_file(repo, cfile, functions, module, outdir):
-    """Write <outdir>/Src_<module>.v; return the entry for the generated-facts block."""
-    tr = Translator(repo, cfile)
+def translate_file(repo, cfile, functions, module, outdir, wrappers=""):
+    """Write <outdir>/Src_<module>.v; return the entry for the generated-facts block.
+    `wrappers`: C text of tiny functions q_<macro>(…) { <macro>(…); } through which
+    function-like macros of the header are translated after expansion; it is
+    appended to a temporary file that #includes the C file."""
+    tmp = None
+    if wrappers:
+        tmp = tempfile.TemporaryDirectory(prefix="c2coq-")
+        path = os.path.join(tmp.name, "wrap_" + cfile)
+        open(path, "w").write('#include "%s"\n%s' % (os.path.join(repo, "src", cfile), wrappers))
+        tr = Translator(repo, path)
+        functions = functions + re.findall(r"\b(q_\w+)\s*\(", wrappers)
+    else:
+        tr = Translator(repo, cfile)
     for fn in functions:
         tr.function(fn)
+    if tmp:
+        tmp.cleanup()
     lines = ["(* generated by gen/c2coq.py from src/%s — do not edit.  One definition src_<f> per" % cfile,
              "   translated C function (CSem.v gives the meaning of every c_* operation); a function the",
              "   translator does not fully understand appears as src_<f>_UNTRANSLATED instead. *)",
@@ -919,8 +951,20 @@ TAGGED_FUNCTIONS = ["varintTaggedLen", "varintTaggedGetLen", "varintTaggedPut64"
                     "varintTaggedPutVarint32", "varintTaggedAddNoGrow", "varintTaggedAddGrow"]
 
 
+# the function-like macros of varintTagged.h, reachable only after expansion
+TAGGED_WRAPPERS = """
+#include "varintTagged.h"
+varintWidth q_varintTaggedLenQuick(uint64_t v) { return varintTaggedLenQuick(v); }
+varintWidth q_varintTaggedGetLenQuick_(const uint8_t *z) { return varintTaggedGetLenQuick_(z); }
+void q_varintTaggedPut64FixedWidthQuick_(uint8_t *dst, uint64_t val, varintWidth encoding) {
+    varintTaggedPut64FixedWidthQuick_(dst, val, encoding);
+}
+uint64_t q_varintTaggedGet64Quick_(const uint8_t *src) { return varintTaggedGet64Quick_(src); }
+"""
+
+
 def regenerate(repo, outdir):
-    return translate_file(repo, "varintTagged.c", TAGGED_FUNCTIONS, "tagged", outdir)
+    return translate_file(repo, "varintTagged.c", TAGGED_FUNCTIONS, "tagged", outdir, TAGGED_WRAPPERS)
 
 
 if __name__ == "__main__":
